@@ -17,7 +17,7 @@ def available():
 
 
 def run_atheris(rep, modname, funcname, runs, shards=4, seeds=(), tag='fuzz', max_len=64, timeout_s=1800,
-                empty_corpus_shards=1):
+                empty_corpus_shards=1, flush_every=5000):
     """`shards` campaigns in parallel, each `runs` executions, libFuzzer seed derived from the
     report's seed.  The first `empty_corpus_shards` campaigns start from an empty corpus, the
     others from `seeds`.  A campaign that hits the timeout is 'inconclusive', never a violation."""
@@ -39,7 +39,7 @@ def run_atheris(rep, modname, funcname, runs, shards=4, seeds=(), tag='fuzz', ma
         cmd = [sys.executable, os.path.join(VERIF, 'vlib', 'fuzz_entry.py'), modname, funcname, d,
                '-runs=%d' % runs, '-seed=%d' % lf_seed, '-max_len=%d' % max_len, '-print_final_stats=0',
                '-verbosity=0', corpus]
-        env = dict(os.environ, PYTHONHASHSEED='0', PYTHONDONTWRITEBYTECODE='1')
+        env = dict(os.environ, PYTHONHASHSEED='0', PYTHONDONTWRITEBYTECODE='1', VERIF_FUZZ_FLUSH=str(flush_every))
         log = open(os.path.join(d, 'log'), 'wb')
         procs.append((d, subprocess.Popen(cmd, stdout=log, stderr=subprocess.STDOUT, env=env, cwd=d), log))
     total = 0
@@ -64,10 +64,77 @@ def run_atheris(rep, modname, funcname, runs, shards=4, seeds=(), tag='fuzz', ma
                     fj = json.load(open(os.path.join(d, f)))
                     clause = 'fuzz: ' + fj['clause']
                     rep.failure_counts[clause] += st['failure_counts'].get(fj['clause'], 1) - 1
-                    rep.add_failure(clause, fj['detail'], fj['case'], stage='atheris ' + tag)
+                    case = fj['case']
+                    choices = case.pop('_choices', None) if isinstance(case, dict) else None
+                    rep.add_failure(clause, fj['detail'], case, choices=choices, stage='atheris ' + tag)
         else:
             tail = open(os.path.join(d, 'log'), 'rb').read()[-600:].decode(errors='replace')
             rep.harness_errors.append('atheris shard produced no statistics: %s' % tail)
     rep.extra.setdefault('atheris', {})[tag] = {'campaigns': shards, 'runs_per_campaign': runs, 'executions_counted': total,
                                                 'empty_corpus_campaigns': empty_corpus_shards}
     shutil.rmtree(base, ignore_errors=True)
+
+
+# ---------------------------------------------------------------------------------------------
+# structured coverage-guided stage: libFuzzer mutates the bytes from which a ByteChooser takes the
+# decisions of the check's ordinary generator, so the same generator / oracle pair is driven by
+# coverage feedback from pybufrkit instead of by Hypothesis' random draws.
+def structured_target(gen_fn, check_fn):
+    from .choose import ByteChooser
+
+    def target(data):
+        ch = ByteChooser(data)
+        try:
+            case = gen_fn(ch)
+            out = check_fn(case)
+        except runner.Reject as e:
+            return 'reject', False, ['rejected: ' + str(e)[:40]], []
+        fails = []
+        if out.failures:
+            cj = dict(case.to_json())
+            cj['_choices'] = list(ch.record)
+            fails = [(clause, runner.jsonable(detail), runner.jsonable(cj)) for clause, detail in out.failures]
+        return case.key(), out.nontrivial, list(out.classes), fails
+    return target
+
+
+def seed_inputs(gen_fn, n, seed):
+    """n byte strings that make the ByteChooser re-take the decisions of n Hypothesis-generated cases
+    (the non-empty starting corpus of a structured campaign)"""
+    import hypothesis
+    from hypothesis import HealthCheck, Phase, given, settings, strategies as st
+    from .choose import Chooser, encode_trace
+    out = []
+
+    @hypothesis.seed(runner._derive_seed(seed, 7777))
+    @settings(max_examples=n, phases=[Phase.generate], database=None, deadline=None,
+              suppress_health_check=list(HealthCheck))
+    @given(st.data())
+    def collect(data):
+        ch = Chooser(data=data)
+        ch.trace = []
+        try:
+            gen_fn(ch)
+        except runner.Reject:
+            return
+        b = encode_trace(ch.trace)
+        if 0 < len(b) <= 4096:
+            out.append(b)
+    collect()
+    return out
+
+
+def run_structured(rep, modname, gen_fn, tier, funcname='fuzz_case', tag='structured', runs=None, shards=None):
+    """Coverage-guided campaigns over the check's own generator (see structured_target).  Half of the
+    campaigns start from an empty corpus, the others from a few Hypothesis-generated cases."""
+    if runs is None:
+        runs = 1500 if tier == 'quick' else 25000
+    if shards is None:
+        shards = 2 if tier == 'quick' else 8
+    try:
+        seeds = seed_inputs(gen_fn, 12 if tier == 'quick' else 40, rep.seed)
+    except Exception as e:      # a generator error here is a harness error, not a verdict
+        rep.harness_errors.append('structured fuzz seeds: %r' % (e,))
+        return
+    run_atheris(rep, modname, funcname, runs=runs, shards=shards, seeds=seeds, tag=tag, max_len=4096,
+                timeout_s=300 if tier == 'quick' else 3600, empty_corpus_shards=max(1, shards // 2), flush_every=100)
